@@ -227,11 +227,11 @@ for (h, n) in ((3, 2), (4, 2), (4, 3), (5, 3), (6, 3), (6, 4)):
             UC("c03-sub-ascii-agree-h%d-n%d-a%d" % (h, n, arm), "exact", "sub_ascii_agree::<%d,%d,0,%d>()" % (h, n, arm), {"C03": "thorough"}, "bounded", EXACT_FNS[1:], "substring_match_ascii: variants agree", unwind=max(h + 3, 7), bound="ASCII haystack %d, needle %d, %s" % (h, n, ARMNAME[arm]))
 CN = {0: '"--a" (ignore_case)', 1: '"a-a" (case sensitive)', 2: '"-a" (ignore_case)', 3: '"ab" (ignore_case)', 4: '"--" (ignore_case)'}
 for (h, nid, k) in ((4, 0, 0), (5, 0, 0), (6, 1, 0), (4, 2, 0), (4, 3, 0), (4, 3, 1), (4, 4, 0), (5, 0, 1)):
-    UC("c05-sub-ascii-needle%d-h%d-k%d" % (nid, h, k), "exact", "sub_ascii_concrete_needle::<%d,%d,%d>()" % (h, nid, k), {"C05": "quick", "C02": "quick", "C03": "quick"}, "bounded", EXACT_FNS[1:],
+    UC("c05-sub-ascii-needle%d-h%d-k%d" % (nid, h, k), "exact", "sub_ascii_concrete_needle::<%d,%d,%d>()" % (h, nid, k), {"C05": "quick"}, "bounded", EXACT_FNS[1:],
        "substring_match_ascii with the concrete needle %s on every ASCII haystack of %d bytes: decision, leftmost best occurrence, contiguous witness, score, None appends nothing" % (CN[nid], h),
        unwind=max(h + 3, 7), bound="ASCII haystack %d (all bytes), concrete needle %s, %s" % (h, CN[nid], CFGNAME[k]), cost=3, core=(nid == 0 and h == 4))
 for (h, nid) in ((3, 2),):
-    UC("c02-sub-ascii-needle%d-h%d" % (nid, h), "exact", "sub_ascii_concrete_needle::<%d,%d,0>()" % (h, nid), {"C02": "quick", "C05": "quick", "C03": "quick"}, "bounded", EXACT_FNS[1:],
+    UC("c02-sub-ascii-needle%d-h%d" % (nid, h), "exact", "sub_ascii_concrete_needle::<%d,%d,0>()" % (h, nid), {"C02": "quick"}, "bounded", EXACT_FNS[1:],
        "substring_match_ascii with the concrete needle %s on every ASCII haystack of %d bytes: decision, leftmost best occurrence, contiguous valid witness, score, None appends nothing" % (CN[nid], h),
        unwind=7, bound="ASCII haystack %d (all bytes), concrete needle %s, DEFAULT" % (h, CN[nid]), cost=3, core=True)
 UC("c05-exact-canary", "exact", "exact_canary()", {"C05": "quick"}, "bounded", [], "canary", unwind=8, expect="fail", no_cover=True)
